@@ -40,6 +40,11 @@ def plan(tier, seed):
     keys = list(OPTS)
     opts = [dict(zip(keys, t)) for t in itertools.product(*[OPTS[k] for k in keys])]
     groups = [[dict(pre, qtier=tier, **o) for o in opts] for pre in prefixes(tier, seed)]
+    # the sparse storage of the shortest vectors (another kernel, another basis change) for cells whose reduced supercell basis is not
+    # symmetric: hexagonal, monoclinic, triclinic, sheared supercells
+    for pre in prefixes(tier, seed):
+        if pre["xtal"] in ("hcp-2", "wurtzite-4", "tri-P1-3", "mono-P21-2", "rhomb-prim-2", "hex-1") and pre["pm"] == "none" and abs(SM.det3(pre["S"])) > 1:
+            groups.append([dict(pre, qtier=tier, sparse=True, **o) for o in opts if o["lang"] == "C" and o["fck"] in ("springs-long", "springs-nn")])
     groups.sort(key=lambda g: -abs(SM.det3(g[0]["S"])) * len(X.by_name()[g[0]["xtal"]]["symbols"]))
     meta = {"alphabet": {"prefixes": len(groups), "option_tuples": len(opts), "G": 27, "scale_pairs": 9,
                          "R": "all primitive_symmetry.reciprocal_operations"},
@@ -97,11 +102,11 @@ def run_group(cases, seed):
 def run_case(case, seed, c, st):
     from phonopy.harmonic.dynamical_matrix import DynamicalMatrix
 
-    tag = "%s/%s/%s" % (case["fck"], case["layout"], case["lang"])
+    tag = "%s/%s/%s%s" % (case["fck"], case["layout"], case["lang"], "/sparse-svecs" if case.get("sparse") else "")
     tier = case.get("qtier", "quick")
     if "ph" not in st:
         try:
-            st["ph"] = phx.make_phonopy(c, case["S"], case["pm"])
+            st["ph"] = phx.make_phonopy(c, case["S"], case["pm"], **({"store_dense_svecs": False} if case.get("sparse") else {}))
         except Exception as e:
             st["ph"] = e
     ph = st["ph"]
